@@ -25,7 +25,12 @@ func argDerived(term string) bool {
 }
 
 // taintSources walks back from v through conversions and φ's to Uint64() sources (and parameters of helpers).
-func taintSources(e *Env, v ssa.Value, seen map[ssa.Value]bool, out *[]ssa.Value, params *[]*ssa.Parameter) {
+type taintSrc struct {
+	call *ssa.Call
+	env  *Env
+}
+
+func taintSources(e *Env, v ssa.Value, seen map[ssa.Value]bool, out *[]taintSrc, params *[]*ssa.Parameter) {
 	if seen[v] {
 		return
 	}
@@ -33,7 +38,17 @@ func taintSources(e *Env, v ssa.Value, seen map[ssa.Value]bool, out *[]ssa.Value
 	switch x := v.(type) {
 	case *ssa.Call:
 		if CalleeName(x) == "(*math/big.Int).Uint64" || CalleeName(x) == "(*math/big.Int).Int64" {
-			*out = append(*out, x)
+			*out = append(*out, taintSrc{x, e})
+			return
+		}
+		// single-result module helper returning a decoded number
+		if sc := x.Call.StaticCallee(); sc != nil && len(sc.Blocks) > 0 && isInteger(x.Type()) && sc.Pkg != nil && strings.HasPrefix(sc.Pkg.Pkg.Path(), modPath) && e.depth < 4 {
+			se := e.Sub(x, sc)
+			for _, r := range returnsOf(sc) {
+				if len(r.Results) == 1 {
+					taintSources(se, retval(r, 0), seen, out, params)
+				}
+			}
 		}
 	case *ssa.Convert:
 		taintSources(e, x.X, seen, out, params)
@@ -50,13 +65,17 @@ func taintSources(e *Env, v ssa.Value, seen map[ssa.Value]bool, out *[]ssa.Value
 			}
 		}
 	case *ssa.Parameter:
+		if a, pe := e.actual(x); a != nil && x.Parent() == e.Fn && e.Parent != nil {
+			taintSources(pe, a, seen, out, params)
+			return
+		}
 		if isInteger(x.Type()) {
 			*params = append(*params, x)
 		}
 	case *ssa.Extract:
 		// result of a module helper that returns a decoded number (e.g. a nonce reader): follow its returns
 		if call, ok := x.Tuple.(*ssa.Call); ok {
-			if sc := call.Call.StaticCallee(); sc != nil && len(sc.Blocks) > 0 && isInteger(x.Type()) {
+			if sc := call.Call.StaticCallee(); sc != nil && len(sc.Blocks) > 0 && isInteger(x.Type()) && e.depth < 4 {
 				se := e.Sub(call, sc)
 				for _, r := range returnsOf(sc) {
 					if x.Index < len(r.Results) {
@@ -201,17 +220,14 @@ func taintRule(c *Ctx, rule, doc string, scope func(*Prog, *ssa.Function) bool, 
 }
 
 func checkTaintSink(c *Ctx, rule string, e *Env, sk taintSink, depth int) {
-	var srcs []ssa.Value
+	var srcs []taintSrc
 	var params []*ssa.Parameter
 	taintSources(e, sk.v, map[ssa.Value]bool{}, &srcs, &params)
 	fn := sk.in.Parent()
 	for _, s := range srcs {
-		call := s.(*ssa.Call)
-		// env in which the source lives (it may sit in a helper whose return value we followed)
-		se := e
-		if call.Parent() != e.Fn {
-			continue // source inside a callee (e.g. the stored nonce counter reader): storage-derived, not argument-derived
-		}
+		// env in which the source lives (it may sit in a helper whose return value we followed); whether it is
+		// argument-derived is decided there, with the helper's parameters replaced by the caller's terms
+		call, se := s.call, s.env
 		recvTerm := se.Term(call.Call.Args[0])
 		derived := argDerived(recvTerm)
 		for _, d := range se.bigReachingDefs(call.Call.Args[0], call) {
@@ -256,15 +272,15 @@ func checkTaintSink(c *Ctx, rule string, e *Env, sk taintSink, depth int) {
 				sub := c.P.Env(cs.Parent()).Sub(cs, e.Fn)
 				if a, pe := sub.actual(par); a != nil {
 					// evaluate boundedness at the sink inside the callee, with the caller's facts available
-					var s2 []ssa.Value
+					var s2 []taintSrc
 					var p2 []*ssa.Parameter
 					taintSources(pe, a, map[ssa.Value]bool{}, &s2, &p2)
 					for _, s := range s2 {
-						call := s.(*ssa.Call)
-						if call.Parent() != pe.Fn || !argDerived(pe.Term(call.Call.Args[0])) {
+						call := s.call
+						if !argDerived(s.env.Term(call.Call.Args[0])) {
 							continue
 						}
-						atom := pe.Term(call)
+						atom := s.env.Term(call)
 						construct := sk.what + " (via parameter " + par.Name() + "): " + atom
 						facts := sub.LinFactsAt(sk.in, nil)
 						facts = append(facts, pe.LinFactsAt(cs, nil)...)
